@@ -35,7 +35,7 @@ STUB = ['the user function (simulated peer)', 'failure of torch.linalg.svd at pl
 
 
 def gen_case(rng):
-    api = rng.choices(['dmrg_cross', 'dmrg_cross_start', 'fi_uni', 'fi_multi', 'fi_multi_start'], [4, 2, 3, 3, 1])[0]
+    api = rng.choices(['dmrg_cross', 'dmrg_cross_start', 'fi_uni', 'fi_multi', 'fi_multi_start', 'fi_multi_gen'], [4, 2, 3, 2, 1, 2])[0]
     d = rng.choice([2, 2, 3, 3, 4, 5])
     small = rng.random() < 0.5
     N = [rng.randint(2, 5) if (small and rng.random() < 0.6) else rng.randint(2, 20) for _ in range(d)]
@@ -48,6 +48,10 @@ def gen_case(rng):
         p['target'] = rng.choice(['hilbert', 'exp', 'square'])
     if api.startswith('fi_multi'):
         p['target'] = rng.choice(['hilbert', 'exp'])
+    if api == 'fi_multi_gen':
+        p['target'] = 'hilbert'
+        if rng.random() < 0.5:
+            p['N'] = N = [rng.randint(2, 8)] * d        # uniform sizes: an index mix-up cannot show up as an IndexError here
     p['R'] = [1] + [rng.randint(1, 4) for _ in range(d - 1)] + [1]
     if p['target'] == 'square':
         p['R'] = [1] + [rng.randint(1, 2) for _ in range(d - 1)] + [1]
@@ -93,7 +97,30 @@ class Peer:
             return self.on_index(arg)
         if self.mode == 'values':
             return self.on_values(arg)
+        if self.mode == 'rows_gen':
+            return self.on_rows_gen(arg)
         return self.on_rows(arg)
+
+    def on_rows_gen(self, ev):
+        if not torch.is_tensor(ev) or ev.dim() != 2 or ev.shape[1] != self.d:
+            self._flag('shape', 'argument has shape %s, expected M x %d' % (list(getattr(ev, 'shape', [])), self.d))
+            return torch.zeros(ev.shape[0], dtype=torch.float64)
+        self.rows += ev.shape[0]
+        lin = torch.round(ev[:, 0]).to(torch.int64)
+        total = int(np.prod(self.N))
+        worst = float((ev[:, 0] - lin.to(torch.float64)).abs().max()) if ev.shape[0] else 0.0
+        if ev.shape[0] and (int(lin.min()) < 0 or int(lin.max()) >= total):
+            self._flag('membership', 'first column is not an entry of the first argument tensor')
+        lin = torch.clamp(lin, 0, total - 1)
+        for j in range(1, self.d):
+            ref = self.args_dense[j].reshape(-1)[lin]
+            scale = float(self.args_dense[j].abs().max()) + 1e-300
+            dj = float((ev[:, j] - ref).abs().max()) / scale if ev.shape[0] else 0.0
+            worst = max(worst, dj)
+        self.log.append((self.calls, int(ev.shape[0]), worst))
+        if worst > 1e-9:
+            self._flag('common_index', 'a row is not (x_1[i],...,x_d[i]) at one common multi-index i (mismatch %.3g)' % worst)
+        return self.fn(ev)
 
     def on_index(self, I):
         if not torch.is_tensor(I):
@@ -181,6 +208,24 @@ def build(p):
         exact = fn(xd)
         peer = Peer('values', N, exact, arg_dense=xd, fn=fn)
         return peer, exact, x, start
+    if api == 'fi_multi_gen':
+        # general argument tensors (not coordinate tensors): x_0 is the linear index (so every row tells which
+        # multi-index it claims to come from), x_1..x_{d-1} are random low-rank TTs
+        strides = [int(np.prod(N[k + 1:])) for k in range(d)]
+        coords = torchtt.meshgrid([torch.arange(n, dtype=torch.float64) * st for n, st in zip(N, strides)])
+        lin = coords[0]
+        for k in range(1, d):
+            lin = lin + coords[k]
+        xs = [lin] + [TT(gen.rand_cores(N, [1] + [rng_r] * (d - 1) + [1], 'f64', g)) for rng_r in ([1, 2] * d)[:d - 1]]
+        dens = [gen.dense(xx) for xx in xs]
+        total = float(np.prod(N))
+        fn = lambda ev: 1.0 / (2.0 + ev[:, 0] / total) + 0.05 * torch.sum(ev[:, 1:], 1)
+        exact = 1.0 / (2.0 + dens[0] / total)
+        for dd in dens[1:]:
+            exact = exact + 0.05 * dd
+        peer = Peer('rows_gen', N, exact, fn=fn)
+        peer.args_dense = dens
+        return peer, exact, xs, start
     # multivariate: meshgrid of distinct vectors
     vectors = [torch.arange(n, dtype=torch.float64) * (0.5 + 0.25 * k) + 0.1 * k for k, n in enumerate(N)]
     xs = torchtt.meshgrid(vectors)
@@ -208,7 +253,7 @@ def call(p, peer, x, start):
         return torchtt.interpolate.dmrg_cross(peer, list(p['N']), eps=p['eps'], x_start=start)
     if api == 'fi_uni':
         return torchtt.interpolate.function_interpolate(peer, x, eps=p['eps'])
-    if api == 'fi_multi':
+    if api in ('fi_multi', 'fi_multi_gen'):
         return torchtt.interpolate.function_interpolate(peer, x, eps=p['eps'])
     return torchtt.interpolate.function_interpolate(peer, x, eps=p['eps'], start_tens=start)
 
